@@ -28,7 +28,7 @@ def mktree(base):
         with open(os.path.join(base, f), "w") as fh:
             fh.write("CONTENT-OF-%s\n" % f)
     links = {"log/app/link_secret": "../secret/abc", "log/app/link_dir": "../secret", "log/app/link_link": "link_secret", "other/dangling": "nowhere",
-             "other/link_a": "../log/app/a.log", "log/loop": "loop", "other/abs_link": os.path.join(base, "log/secret/key.pem")}
+             "other/link_a": "../log/app/a.log", "log/loop": "loop", "other/abs_link": os.path.join(base, "log/secret/key.pem"), "other/dir_to_app": "../log/app"}
     for l, t in links.items():
         p = os.path.join(base, l)
         if not os.path.lexists(p):
@@ -36,7 +36,7 @@ def mktree(base):
     fifo = os.path.join(base, "other/fifo")
     if not os.path.exists(fifo):
         os.mkfifo(fifo)
-    reqs = files + list(links) + ["other/fifo", "log/app", "log/app/../secret/abc", "log/app/link_dir/abc", "log/app/link_dir/../top.log",
+    reqs = files + list(links) + ["log/app/link_dir/abc", "log/app/link_dir/key.pem", "other/dir_to_app/a.log", "other/dir_to_app/b1.log", "other/fifo", "log/app", "log/app/../secret/abc", "log/app/link_dir/abc", "log/app/link_dir/../top.log",
                                   "nonexistent", "log//app/a.log", "log/app/./a.log", "other/../log/top.log"]
     return reqs
 
@@ -44,7 +44,7 @@ def mktree(base):
 def gen_rules(rng, base):
     pool = ["^/.*", "^%s/log/.*" % base, "!^%s/log/secret" % base, "!^%s/log/secret/[[:alpha:]]+$" % base, "^%s/log/app/[[:alnum:]]+\\.log$" % base,
             "readfiles:^%s/other/" % base, "readfiles:!^%s/log/app/b" % base, "readfiles:!^.*\\.pem$", "!\\.pem$", "^%s/log/app/we:ird" % base,
-            "!we:ird", "writefiles:^/.*", "([unclosed", "!([unclosed", "^$", "!^/.*", "readfiles:", "", "!", ":", "readfiles:readfiles:^/.*", "abc", "!abc$"]
+            "!we:ird", "writefiles:^/.*", "readfiles:!^%s/log/secret/" % base, "readfiles:!/secret/", "readfiles:!^%s/log/app/" % base, "readfiles:^%s/log/" % base, "([unclosed", "!([unclosed", "^$", "!^/.*", "readfiles:", "", "!", ":", "readfiles:readfiles:^/.*", "abc", "!abc$"]
     return [rng.choice(pool) for _ in range(rng.choice([1, 1, 2, 3, 4, 5]))]
 
 
@@ -65,7 +65,23 @@ def generate(rng, tier):
     cases.append({"default": ["^/.*", "!^%s/log/secret/[[:alpha:]]+$" % base], "users": {}, "user": "alice", "req": "log/secret/abc", "rel": False})
     cases.append({"default": ["^%s/log/app/[[:alnum:]]+\\.log$" % base], "users": {}, "user": "alice", "req": "log/app/b1.log", "rel": False})
     n = 400 if tier == "quick" else 15000
-    for i in range(n):
+    dirs = {"log/app": ["log/app/a.log", "log/app/b1.log", "other/dir_to_app/a.log", "other/link_a"],
+            "log/secret": ["log/secret/abc", "log/secret/key.pem", "log/app/link_secret", "log/app/link_dir/abc", "log/app/link_link", "other/abs_link"]}
+    for i in range(n // 3):
+        # structured: one allow and one deny that both cover the request, in either order, each bare or prefixed
+        d = rng.choice(list(dirs))
+        req = rng.choice(dirs[d])
+        allow = rng.choice(["^/.*", "^%s/" % base, "^%s/%s/" % (base, d), "%s/" % d])
+        deny = rng.choice(["!^%s/%s/" % (base, d), "!/%s/" % d.split("/")[-1], "!^%s/%s/[[:alnum:].]+$" % (base, d)])
+        if rng.random() < 0.5:
+            allow = "readfiles:" + allow
+        if rng.random() < 0.5:
+            deny = "readfiles:" + deny
+        rules = [allow, deny] if rng.random() < 0.6 else [deny, allow]
+        if rng.random() < 0.3:
+            rules.insert(rng.randrange(3), rng.choice(["^$", "!nomatch", "readfiles:^/nonexistent"]))
+        cases.append({"default": rules, "users": {}, "user": "alice", "req": req, "rel": rng.random() < 0.1})
+    for i in range(n - n // 3):
         users = {}
         if rng.random() < 0.35:
             users["alice"] = gen_rules(rng, base)
